@@ -3,6 +3,7 @@
     Specifications of the whole model program ([Model/CuckooConc.v], [c_pol = Refinable]) against the policy-level
     invariant [CoreR] of [CuckooConcRefInv.v]; probe-set operations do not touch the policy words. *)
 From Coq Require Import ZArith List Bool Lia PeanoNat.
+From Coq Require Import String.
 From LV Require Import Base.Conc Base.Events Model.CuckooConc Proofs.StripedConcSpec Proofs.CuckooConcInv Proofs.CuckooConcRefInv.
 Import ListNotations.
 Local Open Scope nat_scope.
@@ -97,13 +98,13 @@ Section Refinable.
   (** what the owner must keep: the cells it locked for the resize *)
   Definition keeps (w : wview) (H' : list lk) : Prop :=
     (forall g0 sz j, w_own w = OLk g0 sz j -> forall i, i < j -> In (g0, 0, i) H') /\
-    (forall g0 sz n, w_own w = OIn g0 sz n -> forall i, i < sz -> In (g0, 0, i) H').
+    (forall g0 sz n b, w_own w = OIn g0 sz n b -> forall i, i < sz -> In (g0, 0, i) H').
 
   Lemma keeps_super g a t H' : CoreR g a -> (forall l, In l (w_held (a t)) -> In l H') -> keeps (a t) H'.
   Proof.
     intros Hc Hs. split.
     - intros g0 sz j E i Hi. apply Hs. destruct (r_scan Hc t g0 sz j E) as (_ & _ & _ & X). auto.
-    - intros g0 sz n E i Hi. apply Hs. destruct (r_inst Hc t g0 sz n E) as (_ & _ & _ & X). auto.
+    - intros g0 sz n b E i Hi. apply Hs. destruct (r_inst Hc t g0 sz n b E) as (_ & _ & _ & X). auto.
   Qed.
 
   Lemma spin0_free g a l : CoreR g a -> rspin g l = 0 -> forall t0, ~ In l (w_held (a t0)).
@@ -398,12 +399,12 @@ Section Refinable.
 
   (** what a thread learns when it takes m_access *)
   Definition gs_ok (v : wview) (gs : nat * nat) : Prop :=
-    0 < snd gs /\ forall g0 s n, w_own v = OIn g0 s n -> fst gs <> g0.
+    0 < snd gs /\ forall g0 s n b, w_own v = OIn g0 s n b -> fst gs <> g0.
 
   Lemma gs_ok_cur g a t : CoreR g a -> gs_ok (a t) (cur g, gsize g (cur g)).
   Proof.
     intros Hc. destruct (r_cap Hc) as (_ & _ & _ & Cpos). split; [apply Cpos; lia|].
-    intros g0 s n E. destruct (r_inst Hc t g0 s n E) as (_ & X & _). cbn. lia.
+    intros g0 s n b E. destruct (r_inst Hc t g0 s n b E) as (_ & X & _). cbn. lia.
   Qed.
 
   Lemma safe_acc_lock t (Q : nat * nat -> wview -> Prop) v : w_acc v = false ->
@@ -501,13 +502,13 @@ Section Refinable.
 
   (** *** unlocking a pair of cells *)
   Definition nl (v : wview) (l : lk) : Prop :=
-    (forall g0 s j, w_own v <> OLk g0 s j) /\ (forall g0 s n i, w_own v = OIn g0 s n -> l <> (g0, 0, i)).
+    (forall g0 s j, w_own v <> OLk g0 s j) /\ (forall g0 s n b i, w_own v = OIn g0 s n b -> l <> (g0, 0, i)).
 
   Lemma keeps_rem v l (H0 : list lk) : keeps v H0 -> nl v l -> keeps v (rem1 l H0).
   Proof.
     intros [K1 K2] [N1 N2]. split.
     - intros g0 sz j E. exfalso. eapply N1; eauto.
-    - intros g0 sz n E i Hi. apply in_rem1. left. split; [apply not_eq_sym; eapply N2; eauto|eapply K2; eauto].
+    - intros g0 sz n b E i Hi. apply in_rem1. left. split; [apply not_eq_sym; eapply N2; eauto|eapply K2; eauto].
   Qed.
 
   Lemma safe_unlock2 t l0 l1 (Q : wview -> Prop) v :
@@ -528,22 +529,25 @@ Section Refinable.
     w_held w = H /\ w_mic w = MNone /\ w_own w = o /\ w_anc w = None /\ w_chk w = None /\ w_acc w = false.
   Definition okbase (H : list lk) (o : ostate) : Prop :=
     (o = ONone /\ H = []) \/
-    (exists g0 sz n, o = OIn g0 sz n /\ (forall l, In l H -> exists i, l = (g0, 0, i)) /\ forall i, i < sz -> In (g0, 0, i) H).
-  Definition fresh (o : ostate) (l : lk) : Prop := forall g0 s n, o = OIn g0 s n -> lgen l <> g0.
+    (exists g0 sz n b, o = OIn g0 sz n b /\ (forall l, In l H -> exists i, l = (g0, 0, i)) /\ forall i, i < sz -> In (g0, 0, i) H).
+  Definition fresh (o : ostate) (l : lk) : Prop := forall g0 s n b, o = OIn g0 s n b -> lgen l <> g0.
 
   Lemma okbase_keeps H o v : okbase H o -> w_own v = o -> (forall l, In l H -> In l (w_held v)) -> keeps v (w_held v).
   Proof.
-    intros [[-> ->]|(g0 & sz & n & -> & B1 & B2)] Eo Hs; split; intros g1 s1 x E; rewrite Eo in E; try discriminate.
-    injection E as <- <- <-. intros i Hi. apply Hs. auto.
+    intros Hb Eo Hs. split.
+    - intros g1 s1 j E. rewrite Eo in E. destruct Hb as [[-> _]|(g0 & sz & n & b & -> & _)]; discriminate.
+    - intros g1 s1 n1 b1 E i Hi. rewrite Eo in E. destruct Hb as [[-> _]|(g0 & sz & n & b & -> & B1 & B2)]; [discriminate|].
+      injection E as <- <- <- <-. apply Hs. auto.
   Qed.
   Lemma okbase_nl H o v l : okbase H o -> w_own v = o -> fresh o l -> nl v l.
   Proof.
-    intros [[-> ->]|(g0 & sz & n & -> & B1 & B2)] Eo Hf; split; intros g1 s1 x; rewrite Eo; try discriminate.
-    intros i E. injection E as <- <- <-. intros ->. eapply Hf; eauto.
+    intros Hb Eo Hf. split.
+    - intros g1 s1 j E. rewrite Eo in E. destruct Hb as [[-> _]|(g0 & sz & n & b & -> & _)]; discriminate.
+    - intros g1 s1 n1 b1 i E. rewrite Eo in E. intros ->. eapply Hf; eauto.
   Qed.
   Lemma okbase_notin H o l : okbase H o -> fresh o l -> ~ In l H.
   Proof.
-    intros [[-> ->]|(g0 & sz & n & -> & B1 & B2)] Hf Hin; [destruct Hin|].
+    intros [[-> ->]|(g0 & sz & n & b & -> & B1 & B2)] Hf Hin; [destruct Hin|].
     destruct (B1 l Hin) as (i & ->). eapply Hf; eauto.
   Qed.
 
@@ -617,8 +621,8 @@ Section Refinable.
     set (v4 := wlock v3 (l1 :: w_held v3) MNone).
     assert (Hh4 : w_held v4 = l1 :: l0 :: H) by (cbn; now rewrite R1).
     assert (Hne : l0 <> l1) by (unfold l0, l1; congruence).
-    assert (Hf0 : fresh o l0) by (intros g0 s n E; cbn; apply (Gfr g0 s n); congruence).
-    assert (Hf1 : fresh o l1) by (intros g0 s n E; cbn; apply (Gfr g0 s n); congruence).
+    assert (Hf0 : fresh o l0) by (intros g0 s n b E; cbn; apply (Gfr g0 s n b); congruence).
+    assert (Hf1 : fresh o l1) by (intros g0 s n b E; cbn; apply (Gfr g0 s n b); congruence).
     (* leaving without the cells: try again *)
     assert (Hretry : forall vv, w_held vv = l1 :: l0 :: H -> w_mic vv = MNone -> w_own vv = o -> w_anc vv = None -> w_chk vv = None -> w_acc vv = false ->
               safe t (thenu (unlock2 (l0, l1)) (rf_acquire f (S t) h0 h1)) vv (optQ Q)).
@@ -691,8 +695,8 @@ Section Refinable.
     - intros gs _. apply Hexit. now apply incs_gs.
     - intros gs [Gpos Gfr] l0 l1.
       set (v5 := wlock (wlock (wset_gs v1 gs (w_acc v1)) (l0 :: w_held v1) MNone) (l1 :: l0 :: w_held v1) MNone).
-      assert (Hf0 : fresh o l0) by (intros g0 s n E; cbn; apply (Gfr g0 s n); congruence).
-      assert (Hf1 : fresh o l1) by (intros g0 s n E; cbn; apply (Gfr g0 s n); congruence).
+      assert (Hf0 : fresh o l0) by (intros g0 s n b E; cbn; apply (Gfr g0 s n b); congruence).
+      assert (Hf1 : fresh o l1) by (intros g0 s n b E; cbn; apply (Gfr g0 s n b); congruence).
       assert (Hexit2 : forall r, safe t (thenu (unlock2 (l0, l1)) (thenu (unlock2 cl) (oret r))) v5 (optQ (fun (_ : nat * (nat * (nat * nat))) v' => rest v' H o))).
       { intros r. apply (safe_pair_exit t (l0, l1) (w_held v1)); [reflexivity|reflexivity|unfold l0, l1; cbn; congruence| | | |].
         - eapply okbase_keeps; [exact Hb|exact C3|]. intros l Hl. cbn [v5 wlock w_held]. right. right. rewrite C1. right. now right.
@@ -725,6 +729,521 @@ Section Refinable.
     - apply safe_bindo. eapply Conc.safe_weaken; [|eapply safe_reloc_round; eauto].
       intros [r|] v' Hq; cbn [optQ] in *; auto.
       destruct (fst r) as [|[|n0]]; [apply safe_oret; exact Hq|apply IH; exact Hq|apply safe_oret; exact Hq].
+  Qed.
+
+
+  (** *** resize *)
+  Lemma safe_emit {R} t es (k : prog R) (Q : R -> wview -> Prop) v : safe t k v Q -> safe t (Emit es k) v Q.
+  Proof.
+    intros Hk. cbn [Conc.safe]. intros g a tr Hi Hv. exists a. split; [exact Hi|]. split; [apply rframe_refl|]. unfold rview in *. now rewrite Hv.
+  Qed.
+
+  Ltac step_place := apply safe_silent; [intros ?g; apply place_quiet|]; intros ?g ?a ?tr _ _; destruct (Nat.eqb _ 1).
+
+  Lemma safe_reinsert t x H o : okbase H o ->
+    forall v, rest v H o -> safe t (reinsert cf (S t) x) v (optQ (fun _ v' => rest v' H o)).
+  Proof.
+    intros Hb v Hr. unfold reinsert.
+    assert (Hrel : forall tb goal, safe t (bindo (relocate cf relocate_limit (S t) tb goal) (fun _ => oret tt)) v (optQ (fun _ v' => rest v' H o))).
+    { intros tb goal. apply safe_bindo. eapply Conc.safe_weaken; [|eapply safe_relocate; eauto].
+      intros [r|] v' Hq; cbn [optQ] in *; [apply safe_oret; exact Hq|exact I]. }
+    assert (Hdone : safe t (oret tt) v (optQ (fun _ v' => rest v' H o))) by (apply safe_oret; exact Hr).
+    cbv zeta.
+    apply safe_silent; [intros g; apply probe_quiet|]. intros g a tr _ _.
+    destruct (Nat.eqb _ 1).
+    - step_place; [exact Hdone|]. step_place; [exact Hdone|]. step_place; [apply Hrel|]. step_place; [apply Hrel|].
+      apply safe_emit. exact Hdone.
+    - apply safe_silent; [intros g1; apply probe_quiet|]. intros g1 a1 tr1 _ _.
+      step_place; [exact Hdone|]. step_place; [exact Hdone|]. step_place; [apply Hrel|]. step_place; [apply Hrel|].
+      apply safe_emit. exact Hdone.
+  Qed.
+
+  Lemma safe_reinsert_all t H o : okbase H o ->
+    forall xs v, rest v H o -> safe t (reinsert_all cf (S t) xs) v (optQ (fun _ v' => rest v' H o)).
+  Proof.
+    intros Hb xs. induction xs as [|x r IH]; intros v Hr; cbn [reinsert_all]; [apply safe_oret; exact Hr|].
+    apply safe_bindo. eapply Conc.safe_weaken; [|eapply safe_reinsert; eauto].
+    intros [u|] v' Hq; cbn [optQ] in *; auto.
+  Qed.
+
+  (** lock_all / unlock_all on the cells of table 0 of generation g0 *)
+  Definition indg (g0 sz i : nat) (l : lk) : nat :=
+    match l with (gg, 0, j) => if (Nat.eqb gg g0 && Nat.leb i j && Nat.ltb j sz)%bool then 1 else 0 | _ => 0 end.
+
+  Lemma indg_here g0 sz i : i < sz -> indg g0 sz i (g0, 0, i) = 1.
+  Proof. intros H. unfold indg. rewrite Nat.eqb_refl. destruct (Nat.leb_spec i i); destruct (Nat.ltb_spec i sz); cbn; lia. Qed.
+  Lemma indg_step g0 sz i l : l <> (g0, 0, i) -> indg g0 sz i l = indg g0 sz (S i) l.
+  Proof.
+    intros Hne. destruct l as [[gg tb] j]. unfold indg. destruct tb; auto. destruct (Nat.eqb_spec gg g0) as [->|E]; cbn [andb]; auto.
+    assert (j <> i) by congruence.
+    destruct (Nat.leb_spec i j); destruct (Nat.leb_spec (S i) j); destruct (Nat.ltb_spec j sz); cbn; lia.
+  Qed.
+  Lemma indg_end g0 sz l : indg g0 sz sz l = 0.
+  Proof.
+    destruct l as [[gg tb] j]. unfold indg. destruct tb; auto. destruct (Nat.eqb gg g0); cbn [andb]; auto.
+    destruct (Nat.leb_spec sz j); destruct (Nat.ltb_spec j sz); cbn; lia.
+  Qed.
+
+  Lemma indg_past g0 sz i : indg g0 sz (S i) (g0, 0, i) = 0.
+  Proof. unfold indg. rewrite Nat.eqb_refl. destruct (Nat.leb_spec (S i) i); cbn; auto. lia. Qed.
+
+  Lemma safe_lock_all t fuel g0 sz (Q : wview -> Prop) : forall n i v, i + n = sz -> w_mic v = MNone -> w_gs v = (g0, sz) ->
+    (forall H', (forall l, cnt H' l = cnt (w_held v) l + indg g0 sz i l) -> Q (wlock v H' MNone)) ->
+    safe t (lock_all fuel (S t) g0 n i) v (optQ (fun _ => Q)).
+  Proof.
+    induction n as [|n IH]; intros i v Hn Hm Hg HQ; cbn [lock_all].
+    - apply safe_oret. assert (E : v = wlock v (w_held v) MNone) by (destruct v; cbn in *; now rewrite Hm). rewrite E. apply HQ.
+      intros l. assert (i = sz) by lia. subst i. rewrite indg_end. cbn. lia.
+    - apply safe_bindo. apply safe_r_lock; [apply nopost_quiet| |exact Hm|].
+      { exists 0, i. rewrite Hg. cbn. repeat split; auto; lia. }
+      apply IH; [lia|reflexivity|exact Hg|].
+      intros H' HH'. cbn [wlock w_held w_own w_anc w_chk w_gs w_acc w_mask] in *. apply HQ.
+      intros l. rewrite HH'. destruct (lk_dec l (g0, 0, i)) as [->|Hne].
+      + rewrite cnt_cons_same, indg_here, indg_past by lia. lia.
+      + rewrite cnt_cons_other by auto. rewrite (indg_step g0 sz i l Hne). lia.
+  Qed.
+
+  Lemma cnt_zero_nil (H : list lk) : (forall l, cnt H l = 0) -> H = [].
+  Proof. intros E. destruct H as [|l H]; auto. specialize (E l). rewrite cnt_cons_same in E. lia. Qed.
+
+  Lemma safe_unlock_all t g0 sz (Q : wview -> Prop) : forall n i v, i + n = sz -> w_mic v = MNone -> w_own v = ONone ->
+    w_anc v = None -> w_chk v = None -> w_acc v = false ->
+    (forall l, cnt (w_held v) l = indg g0 sz i l) ->
+    (forall v', rest v' [] ONone -> Q v') ->
+    safe t (unlock_all g0 n i) v (fun _ => Q).
+  Proof.
+    induction n as [|n IH]; intros i v Hn Hm Ho Ha Hk Hacc Hc HQ; cbn [unlock_all].
+    - apply safe_ret. assert (Hnil : w_held v = []).
+      { apply cnt_zero_nil. intros l. rewrite Hc. assert (i = sz) by lia. subst i. apply indg_end. }
+      apply HQ. repeat split; auto.
+    - assert (Hci : cnt (w_held v) (g0, 0, i) = 1) by (rewrite Hc; apply indg_here; lia).
+      apply safe_thenu. apply safe_r_unlock; auto.
+      + apply in_cnt. lia.
+      + intros _. split; intros g1 s1 x; rewrite Ho; discriminate.
+      + apply IH; cbn [wrel w_held w_mic w_own w_acc w_anc w_chk]; auto; [lia|now rewrite Ha|now rewrite Hk|].
+        intros l. destruct (lk_dec l (g0, 0, i)) as [->|Hne].
+        * rewrite cnt_rem1_same, Hci, indg_past. reflexivity.
+        * rewrite cnt_rem1_other, Hc by auto. apply indg_step. exact Hne.
+  Qed.
+
+
+  (** acquire_resize(): owner word, capacity re-check, then every cell of table 0 *)
+  Definition resizing (w : wview) (g0 sz j : nat) : Prop :=
+    w_own w = OLk g0 sz j /\ w_gs w = (g0, sz) /\ w_mic w = MNone /\ w_anc w = None /\ w_chk w = None /\ w_acc w = false /\
+    0 < sz /\ forall l, cnt (w_held w) l = indg g0 sz 0 l.
+
+  Lemma others_none g a t : CoreR g a -> w_own (a t) <> ONone -> forall t0, t0 <> t -> w_own (a t0) = ONone.
+  Proof.
+    intros Hc Ho t0 Hne. destruct (w_own (a t0)) eqn:E; auto; exfalso; apply Hne; eapply (own_unique g a); eauto; rewrite E; discriminate.
+  Qed.
+
+  Lemma safe_rf_acquire_resize t (Q : nat * nat -> wview -> Prop) :
+    (forall gs v', resizing v' (fst gs) (snd gs) 0 -> Q gs v') ->
+    forall fuel v, rest v [] ONone -> safe t (rf_acquire_resize fuel (S t)) v (optQ Q).
+  Proof.
+    intros HQ fuel. induction fuel as [|f IH]; intros v Hr; cbn [rf_acquire_resize]; [exact I|].
+    pose proof Hr as (R1 & R2 & R3 & R4 & R5 & R6).
+    apply safe_bindo. refine (proj1 (safe_acc_lock t _ v R6 _ (S f))).
+    intros gs [Gpos Gfr]. destruct gs as [gen sz]. cbn [fst snd] in *.
+    apply safe_pcap_ld_acc; [reflexivity|]. intros vc Hvc. cbn [wset_gs w_gs snd] in Hvc.
+    apply safe_access_st; [reflexivity|]. cbn [wset_gs w_gs w_held w_mic w_own w_anc w_chk w_mask].
+    set (v2 := mkW (w_held v) (w_mic v) (w_own v) (w_anc v) (w_chk v) (gen, sz) false (w_mask v)).
+    assert (Hr2 : rest v2 [] ONone) by (repeat split; auto).
+    (* the compare-exchange on the owner word *)
+    cbn [Conc.safe]. intros g a tr Hi Hv. unfold rview in Hv. unfold a_owner_cas.
+    destruct (Nat.eqb_spec (owner g) 0) as [E0|E0]; cbn [fst snd vn vnat Nat.eqb].
+    2:{ exists a. split; [exact Hi|]. split; [apply rframe_refl|]. unfold rview. rewrite Hv. apply IH. exact Hr2. }
+    eexists. split; [apply (CoreR_own g (set_owner g (2 * S t + 1)) a t OCas (w_mask (a t)) Hi);
+                       [repeat split|reflexivity|reflexivity|reflexivity|reflexivity|reflexivity|reflexivity| | | | | | | |]|].
+    { intros t0 _. apply (r_own0 Hi E0). }
+    { intros _. reflexivity. }
+    { discriminate. }
+    { discriminate. }
+    { discriminate. }
+    { intros []. }
+    { intros g0 s n b E. rewrite Hv in E. cbn in E. rewrite R3 in E. discriminate. }
+    { intros []. }
+    split; [apply rframe_setv|]. unfold rview. rewrite rsetv_same, Hv.
+    set (v3 := wset_own v2 OCas (w_mask v2)).
+    (* the capacity re-check *)
+    clear g a tr Hi Hv E0. cbn [Conc.safe]. intros g a tr Hi Hv. unfold rview in Hv. cbn [a_pcap_ld fst snd vn].
+    assert (Hown : w_own (a t) = OCas) by now rewrite Hv.
+    assert (Hoth : forall t0, t0 <> t -> w_own (a t0) = ONone) by (apply (others_none g a t Hi); rewrite Hown; discriminate).
+    assert (Hog : owner g = 2 * S t + 1) by (apply (r_own1 Hi t); rewrite Hown; discriminate).
+    destruct (r_gs Hi t) as [G1 G2]. rewrite Hv in G1, G2. cbn in G1, G2.
+    rewrite Hvc. destruct (Nat.eqb_spec sz (pcap g)) as [Ec|Ec].
+    - assert (Eg : gen = cur g) by (eapply cap_gen; eauto; lia).
+      eexists. split; [apply (CoreR_own g g a t (OLk gen sz 0) (w_mask (a t)) Hi);
+                         [repeat split|reflexivity|reflexivity|reflexivity|reflexivity|reflexivity|reflexivity|exact Hoth| | | | | | |]|].
+      { intros _. exact Hog. }
+      { discriminate. }
+      { intros g0 s j E. injection E as <- <- <-. split; [lia|]. split; [auto|]. split; [exact Eg|]. intros i Hi0. lia. }
+      { discriminate. }
+      { cbn. intros E. lia. }
+      { intros g0 s n b E. rewrite Hown in E. discriminate. }
+      { cbn. intros E. lia. }
+      split; [apply rframe_setv|]. unfold rview. rewrite rsetv_same, Hv.
+      apply safe_bindo. apply (safe_lock_all t _ gen sz); [lia|cbn; exact R2|reflexivity|].
+      intros H' HH'. apply safe_oret. apply HQ. cbn [fst snd]. repeat split; auto.
+      intros l. rewrite HH'. cbn. rewrite R1. reflexivity.
+    - exists a. split; [exact Hi|]. split; [apply rframe_refl|]. unfold rview. rewrite Hv.
+      (* the arrays were replaced: give the owner word back and start again *)
+      clear g a tr Hi Hv Hown Hoth Hog G1 G2 Ec. cbn [Conc.safe]. intros g a tr Hi Hv. unfold rview in Hv. cbn [a_owner_st0 fst snd].
+      assert (Hown : w_own (a t) = OCas) by now rewrite Hv.
+      assert (Hoth : forall t0, t0 <> t -> w_own (a t0) = ONone) by (apply (others_none g a t Hi); rewrite Hown; discriminate).
+      eexists. split; [apply (CoreR_own g (set_owner g 0) a t ONone (w_mask (a t)) Hi);
+                         [repeat split|reflexivity|reflexivity|reflexivity|reflexivity|reflexivity|reflexivity|exact Hoth| | | | | | |]|].
+      { congruence. }
+      { reflexivity. }
+      { discriminate. }
+      { discriminate. }
+      { intros []. }
+      { intros g0 s n b E. rewrite Hown in E. discriminate. }
+      { intros []. }
+      split; [apply rframe_setv|]. unfold rview. rewrite rsetv_same, Hv. apply IH. repeat split; auto.
+  Qed.
+
+
+  Lemma indg_pos g0 sz i l : 0 < indg g0 sz i l -> exists j, l = (g0, 0, j) /\ j < sz.
+  Proof.
+    destruct l as [[gg tb] j]. unfold indg. destruct tb; [|lia]. destruct (Nat.eqb_spec gg g0) as [->|E]; cbn [andb]; [|lia].
+    destruct (Nat.leb i j); cbn [andb]; [|lia]. destruct (Nat.ltb_spec j sz); [|lia]. intros _. exists j. auto.
+  Qed.
+  Lemma indg0_here g0 sz i : i < sz -> indg g0 sz 0 (g0, 0, i) = 1.
+  Proof. intros H. unfold indg. rewrite Nat.eqb_refl. cbn [andb Nat.leb]. destruct (Nat.ltb_spec i sz); [reflexivity|lia]. Qed.
+
+  (** release_resize(): the owner word first, then the cells *)
+  Lemma safe_resize_unlock t g0 sz v :
+    (w_own v = OLk g0 sz sz \/ exists n, w_own v = OIn g0 sz n true) ->
+    w_mic v = MNone -> w_anc v = None -> w_chk v = None -> w_acc v = false ->
+    (forall l, cnt (w_held v) l = indg g0 sz 0 l) ->
+    safe t (thenu (resize_unlock Refinable (g0, sz)) (oret tt)) v (optQ (fun _ v' => rest v' [] ONone)).
+  Proof.
+    intros Ho Hm Ha Hk Hacc Hc. apply safe_thenu. cbn [resize_unlock fst snd].
+    cbn [Conc.safe]. intros g a tr Hi Hv. unfold rview in Hv. cbn [a_owner_st0 fst snd].
+    assert (Hne : w_own (a t) <> ONone) by (rewrite Hv; destruct Ho as [->|(n & ->)]; discriminate).
+    eexists. split; [apply (CoreR_own g (set_owner g 0) a t ONone (w_mask (a t)) Hi);
+                       [repeat split|reflexivity|reflexivity|reflexivity|reflexivity|reflexivity|reflexivity|apply (others_none g a t Hi Hne)| | | | | | |]|].
+    { congruence. }
+    { reflexivity. }
+    { discriminate. }
+    { discriminate. }
+    { intros []. }
+    { intros g1 s n b E. rewrite Hv in E. destruct Ho as [Ho|(n' & Ho)]; rewrite Ho in E; [discriminate|]. now injection E as _ _ _ <-. }
+    { intros []. }
+    split; [apply rframe_setv|]. unfold rview. rewrite rsetv_same, Hv.
+    apply (safe_unlock_all t g0 sz _ sz 0); auto.
+  Qed.
+
+  Lemma safe_install {R} t g0 sz n (k : V -> prog R) (Q : R -> wview -> Prop) v :
+    w_own v = OLk g0 sz sz -> w_acc v = true -> w_anc v = None -> w_chk v = None -> n = 2 * S (w_mask v) ->
+    (forall gen', safe t (k (vnat 0)) (mkW (w_held v) (w_mic v) (OIn g0 sz n false) None None (gen', n) true (w_mask v)) Q) ->
+    safe t (Act (a_pcap_st_install n) k) v Q.
+  Proof.
+    intros Ho Ha Hn Hk Hnn HK. cbn [Conc.safe]. intros g a tr Hi Hv. unfold rview in Hv. cbn [a_pcap_st_install fst snd].
+    eexists. split; [apply (CoreR_install g a t g0 sz n Hi); rewrite Hv; auto|].
+    split; [apply rframe_setv|]. unfold rview. rewrite rsetv_same, Hv. apply HK.
+  Qed.
+
+  Lemma safe_alloc {R} t g0 sz n (k : V -> prog R) (Q : R -> wview -> Prop) v :
+    w_own v = OIn g0 sz n false ->
+    (forall xs, safe t (k (mkV 0 0 0 xs)) (wset_own v (OIn g0 sz n true) (n - 1)) Q) ->
+    safe t (Act (a_mask_st_alloc n) k) v Q.
+  Proof.
+    intros Ho HK. cbn [Conc.safe]. intros g a tr Hi Hv. unfold rview in Hv. unfold a_mask_st_alloc. cbn [fst snd].
+    eexists. split; [apply (CoreR_alloc g a t g0 sz n _ Hi); rewrite Hv; exact Ho|].
+    split; [apply rframe_setv|]. unfold rview. rewrite rsetv_same, Hv. apply HK.
+  Qed.
+
+  Lemma safe_resize t v : rest v [] ONone -> safe t (resize cf (S t)) v (optQ (fun _ v' => rest v' [] ONone)).
+  Proof.
+    intros Hr. unfold resize. apply safe_silent; [intros g; apply quiet_refl|]. intros g00 a00 tr00 _ _. cbn [a_mask_ld fst snd vn vnat].
+    generalize (S (mask g00)) as nold. clear g00 a00 tr00. intros nold.
+    apply safe_bindo. rewrite Hpol. cbn [resize_lock policy_resize].
+    apply safe_rf_acquire_resize; [|exact Hr]. intros [g0 sz] v1 Hz. cbn [fst snd] in Hz. destruct Hz as (Z1 & Z2 & Z3 & Z4 & Z5 & Z6 & Z7 & Z8).
+    (* the second load of the bucket mask: every cell is locked, the thread is the exclusive owner *)
+    cbn [Conc.safe]. intros g a tr Hi Hv. unfold rview in Hv. cbn [a_mask_ld fst snd vn vnat].
+    assert (Hown : w_own (a t) = OLk g0 sz 0) by now rewrite Hv.
+    destruct (r_scan Hi t g0 sz 0 Hown) as (_ & S2 & S3 & _).
+    assert (Hlocks : forall i, i < sz -> In (g0, 0, i) (w_held (a t))).
+    { intros i Hi0. rewrite Hv. apply in_cnt. rewrite Z8, indg0_here by exact Hi0. lia. }
+    assert (Hconf : forall t0 gen i, t0 <> t -> In (gen, 0, i) (w_held (a t0)) -> gen <> cur g).
+    { intros t0 gen i Hne Hin Eg. destruct (r_range Hi _ _ _ _ Hin) as (_ & _ & B3). apply Hne.
+      eapply (r_excl Hi); [exact Hin|]. rewrite Eg, <- S3. apply Hlocks. rewrite Eg, <- S3, <- S2 in B3. exact B3. }
+    eexists. split; [apply (CoreR_own g g a t (OLk g0 sz sz) (mask g) Hi);
+                       [repeat split|reflexivity|reflexivity|reflexivity|reflexivity|reflexivity|reflexivity| | | | | | | |]|].
+    { apply (others_none g a t Hi). rewrite Hown. discriminate. }
+    { intros _. apply (r_own1 Hi t). rewrite Hown. discriminate. }
+    { discriminate. }
+    { intros g1 s j E. injection E as <- <- <-. split; [lia|]. split; [exact S2|]. split; [exact S3|]. exact Hlocks. }
+    { discriminate. }
+    { intros _ t0 Hne. split.
+      - destruct (w_anc (a t0)) as [[gen i]|] eqn:E; auto. exfalso. destruct (r_anc Hi t0 gen i E) as (B1 & B2 & _).
+        eapply Hconf; eauto.
+      - intros gen i E. destruct (r_chk Hi t0 gen i E) as (B1 & _). eapply Hconf; eauto. }
+    { intros g1 s n b E. rewrite Hown in E. discriminate. }
+    { reflexivity. }
+    split; [apply rframe_setv|]. unfold rview. rewrite rsetv_same, Hv.
+    set (v2 := wset_own v1 (OLk g0 sz sz) (mask g)).
+    assert (Hunl : forall vv, (w_own vv = OLk g0 sz sz \/ exists n, w_own vv = OIn g0 sz n true) -> w_held vv = w_held v1 -> w_mic vv = MNone ->
+              w_anc vv = None -> w_chk vv = None -> w_acc vv = false ->
+              safe t (thenu (resize_unlock Refinable (g0, sz)) (oret tt)) vv (optQ (fun _ v' => rest v' [] ONone))).
+    { intros vv B1 B2 B3 B4 B5 B6. apply safe_resize_unlock; auto. intros l. rewrite B2. apply Z8. }
+    destruct (Nat.eqb_spec (S (mask g)) nold) as [En|En]; [|apply Hunl; auto].
+    subst nold. set (m := mask g) in *. clearbody m. set (n := 2 * S m).
+    (* resize of the policy: new lock arrays, under m_access *)
+    apply safe_bindo. apply safe_bindo. refine (proj1 (safe_acc_lock t _ v2 Z6 _ (c_fuel cf))). intros gs _.
+    apply (safe_install t g0 sz n); [reflexivity|reflexivity|exact Z4|exact Z5|reflexivity|]. intros gen'.
+    cbn [wset_gs wset_own w_held w_mic w_own w_anc w_chk w_gs w_acc w_mask v2].
+    apply safe_access_st; [reflexivity|]. cbn [wset_gs w_held w_mic w_own w_anc w_chk w_gs w_acc w_mask].
+    cbv beta. apply safe_oret. cbv beta.
+    (* the new tables *)
+    apply (safe_alloc t g0 sz n); [reflexivity|]. intros xs. cbn [wset_own w_held w_mic w_own w_anc w_chk w_gs w_acc w_mask vl].
+    apply safe_bindo.
+    eapply Conc.safe_weaken; [|apply (safe_reinsert_all t (w_held v1) (OIn g0 sz n true))].
+    - intros [u|] v' Hq; cbn [optQ] in *; auto. destruct Hq as (Q1 & Q2 & Q3 & Q4 & Q5 & Q6).
+      apply Hunl; auto. right. eexists; eauto.
+    - right. exists g0, sz, n, true. split; [reflexivity|]. split.
+      + intros l Hl. apply in_cnt in Hl. rewrite Z8 in Hl. destruct (indg_pos _ _ _ _ Hl) as (j & -> & _). eauto.
+      + intros i Hi0. apply in_cnt. rewrite Z8, indg0_here by exact Hi0. lia.
+    - repeat split; auto.
+  Qed.
+
+
+  (** *** client operations *)
+  Definition idle (v : wview) : Prop := rest v [] ONone.
+  Lemma ok_idle : okbase [] ONone.
+  Proof. left. auto. Qed.
+
+  Ltac qstep := apply safe_silent;
+    [intros ?g; first [apply place_quiet|apply probe_quiet|apply remove_quiet|apply quiet_count|apply look_quiet|apply partial_quiet|apply quiet_refl]|];
+    intros ?g ?a ?tr _ _.
+
+  Lemma safe_do_insert t upd x : forall fuel v, idle v ->
+    safe t (do_insert cf fuel (S t) upd x) v (optQ (fun _ v' => idle v')).
+  Proof.
+    induction fuel as [|f IH]; intros v Hr; cbn [do_insert]; [exact I|].
+    apply safe_bindo. rewrite Hpol. cbn [cell_lock].
+    apply (safe_rf_acquire t _ _ [] ONone); [apply ok_idle| |exact Hr].
+    intros cl v1 Hin.
+    assert (Hexit : forall (r : nat * nat), safe t (thenu (unlock2 cl) (oret r)) v1 (optQ (fun _ v' => idle v'))).
+    { intros r. apply (safe_cs_exit t cl [] ONone); [apply ok_idle|exact Hin|]. intros v' Hr' _. apply safe_oret. exact Hr'. }
+    assert (Hdone : forall (r : nat * nat), safe t (Act a_count_faa (fun _ => thenu (unlock2 cl) (oret r))) v1 (optQ (fun _ v' => idle v'))).
+    { intros r. qstep. apply Hexit. }
+    assert (Hreloc : forall (r : nat * nat) tb goal,
+              safe t (Act a_count_faa (fun _ => thenu (unlock2 cl)
+                 (bindo (relocate cf relocate_limit (S t) tb goal) (fun ok =>
+                    if ok then oret r else bindo (resize cf (S t)) (fun _ => oret r))))) v1 (optQ (fun _ v' => idle v'))).
+    { intros r tb goal. qstep. apply (safe_cs_exit t cl [] ONone); [apply ok_idle|exact Hin|]. intros v' Hr' _.
+      apply safe_bindo. eapply Conc.safe_weaken; [|apply (safe_relocate t [] ONone ok_idle); exact Hr'].
+      intros [ok|] v2 Hq; cbn [optQ] in *; [|exact I]. destruct ok; [apply safe_oret; exact Hq|].
+      apply safe_bindo. eapply Conc.safe_weaken; [|apply safe_resize; exact Hq].
+      intros [u|] v3 Hq3; cbn [optQ] in *; [apply safe_oret; exact Hq3|exact I]. }
+    assert (Hagain : safe t (thenu (unlock2 cl) (bindo (resize cf (S t)) (fun _ => do_insert cf f (S t) upd x))) v1 (optQ (fun _ v' => idle v'))).
+    { apply (safe_cs_exit t cl [] ONone); [apply ok_idle|exact Hin|]. intros v' Hr' _.
+      apply safe_bindo. eapply Conc.safe_weaken; [|apply safe_resize; exact Hr'].
+      intros [u|] v3 Hq3; cbn [optQ] in *; [apply IH; exact Hq3|exact I]. }
+    assert (Hplaces : forall (r : nat * nat), safe t
+      (Act (a_place (c_ord cf) 0 (fst (hashes cf (key_of x))) x (c_th cf)) (fun v0 =>
+         if Nat.eqb (vn v0) 1 then Act a_count_faa (fun _ => thenu (unlock2 cl) (oret r)) else
+         Act (a_place (c_ord cf) 1 (snd (hashes cf (key_of x))) x (c_th cf)) (fun v1 =>
+           if Nat.eqb (vn v1) 1 then Act a_count_faa (fun _ => thenu (unlock2 cl) (oret r)) else
+           Act (a_place (c_ord cf) 0 (fst (hashes cf (key_of x))) x (c_ps cf)) (fun w0 =>
+             if Nat.eqb (vn w0) 1 then
+               Act a_count_faa (fun _ => thenu (unlock2 cl)
+                 (bindo (relocate cf relocate_limit (S t) 0 (hashes cf (match vl w0 with y :: _ => key_of y | [] => key_of x end))) (fun ok =>
+                    if ok then oret r else bindo (resize cf (S t)) (fun _ => oret r))))
+             else
+             Act (a_place (c_ord cf) 1 (snd (hashes cf (key_of x))) x (c_ps cf)) (fun w1 =>
+               if Nat.eqb (vn w1) 1 then
+                 Act a_count_faa (fun _ => thenu (unlock2 cl)
+                   (bindo (relocate cf relocate_limit (S t) 1 (hashes cf (match vl w1 with y :: _ => key_of y | [] => key_of x end))) (fun ok =>
+                      if ok then oret r else bindo (resize cf (S t)) (fun _ => oret r))))
+               else thenu (unlock2 cl) (bindo (resize cf (S t)) (fun _ => do_insert cf f (S t) upd x)))))))
+      v1 (optQ (fun _ v' => idle v'))).
+    { intros r. qstep. destruct (Nat.eqb _ 1); [apply Hdone|]. qstep. destruct (Nat.eqb _ 1); [apply Hdone|].
+      qstep. destruct (Nat.eqb _ 1); [apply Hreloc|]. qstep. destruct (Nat.eqb _ 1); [apply Hreloc|]. exact Hagain. }
+    unfold contains. qstep. destruct (Nat.eqb _ 1); [cbn [Nat.ltb Nat.leb]; apply Hexit|].
+    qstep. destruct (Nat.eqb _ 1); [cbn [Nat.ltb Nat.leb]; apply Hexit|]. cbn [Nat.ltb Nat.leb].
+    destruct upd as [[|]|]; [apply Hplaces|apply Hexit|apply Hplaces].
+  Qed.
+
+  Lemma safe_run_op t o v : idle v -> safe t (run_op cf t o) v (optQ (fun _ v' => idle v')).
+  Proof.
+    intros Hr. unfold run_op.
+    set (c := nth 0 o 0). set (k := nth 1 o 0). set (x := nth 2 o 0). set (y := nth 3 o 0).
+    destruct (op_of_code c y) as [co|]; [|apply safe_oret; exact Hr].
+    apply safe_emit.
+    assert (Hfin : forall (r : nat * nat) v', idle v' ->
+              safe t (Emit [EvCli "ret"%string (zl [c; fst r; r2_of_code c k (fst r) (snd r)])] (oret tt)) v' (optQ (fun _ v'' => idle v''))).
+    { intros r v' Hv'. apply safe_emit. apply safe_oret. exact Hv'. }
+    assert (Hcs : forall (cont : cells -> nat -> nat -> prog (option (nat * nat))),
+              (forall cl tb own v1, incs v1 cl [] ONone -> safe t (cont cl tb own) v1 (optQ (fun _ v' => idle v'))) ->
+              safe t (bindo (cell_lock (c_pol cf) (c_fuel cf) L (S t) (fst (hashes cf k)) (snd (hashes cf k))) (fun cl =>
+                        bindo (contains (hashes cf k) k (cont cl)) (fun r => Emit [EvCli "ret"%string (zl [c; fst r; r2_of_code c k (fst r) (snd r)])] (oret tt))))
+                   v (optQ (fun _ v' => idle v'))).
+    { intros cont Hcont. apply safe_bindo. rewrite Hpol. cbn [cell_lock].
+      apply (safe_rf_acquire t _ _ [] ONone); [apply ok_idle| |exact Hr].
+      intros cl v1 Hin. apply safe_bindo.
+      assert (Hc' : forall tb own, safe t (cont cl tb own) v1 (optQ (fun r l' => safe t (Emit [EvCli "ret"%string (zl [c; fst r; r2_of_code c k (fst r) (snd r)])] (oret tt)) l' (optQ (fun _ v'' => idle v''))))).
+      { intros tb own. eapply Conc.safe_weaken; [|apply Hcont; exact Hin]. intros [r|] v' Hq; cbn [optQ] in *; [apply Hfin; exact Hq|exact I]. }
+      unfold contains. qstep. destruct (Nat.eqb _ 1); [apply Hc'|]. qstep. destruct (Nat.eqb _ 1); apply Hc'. }
+    assert (Hexit : forall cl (r : nat * nat) v1, incs v1 cl [] ONone -> safe t (thenu (unlock2 cl) (oret r)) v1 (optQ (fun _ v' => idle v'))).
+    { intros cl r v1 Hin. apply (safe_cs_exit t cl [] ONone); [apply ok_idle|exact Hin|]. intros v' Hr' _. apply safe_oret. exact Hr'. }
+    destruct co as [|allow| | |].
+    - apply safe_bindo. eapply Conc.safe_weaken; [|apply safe_do_insert; exact Hr].
+      intros [r|] v' Hq; cbn [optQ] in *; [apply Hfin; exact Hq|exact I].
+    - apply safe_bindo. eapply Conc.safe_weaken; [|apply safe_do_insert; exact Hr].
+      intros [r|] v' Hq; cbn [optQ] in *; [apply Hfin; exact Hq|exact I].
+    - apply (Hcs (fun cl tb own => if (Nat.ltb tb 2 && Nat.eqb own t)%bool
+                 then Act (a_remove tb (hsel (hashes cf k) tb) k) (fun _ => Act a_count_fas (fun _ => thenu (unlock2 cl) (oret (1, 0))))
+                 else thenu (unlock2 cl) (oret (0, 0)))).
+      intros cl tb own v1 Hin. destruct (Nat.ltb tb 2 && Nat.eqb own t)%bool; [|apply Hexit; exact Hin].
+      qstep. qstep. apply Hexit; exact Hin.
+    - apply (Hcs (fun cl tb own => if (Nat.ltb tb 2 && true)%bool
+                 then Act (a_remove tb (hsel (hashes cf k) tb) k) (fun _ => Act a_count_fas (fun _ => thenu (unlock2 cl) (oret (1, 0))))
+                 else thenu (unlock2 cl) (oret (0, 0)))).
+      intros cl tb own v1 Hin. destruct (Nat.ltb tb 2 && true)%bool; [|apply Hexit; exact Hin].
+      qstep. qstep. apply Hexit; exact Hin.
+    - apply (Hcs (fun cl tb _ => thenu (unlock2 cl) (oret (b2n (Nat.ltb tb 2), 0)))).
+      intros cl tb own v1 Hin. apply Hexit; exact Hin.
+  Qed.
+
+  Lemma safe_run_ops t os : forall v, idle v -> safe t (run_ops cf t os) v (fun _ _ => True).
+  Proof.
+    induction os as [|o r IH]; intros v Hv; cbn [run_ops]; [exact I|].
+    apply Conc.safe_bind. eapply Conc.safe_weaken; [|apply safe_run_op; auto].
+    intros [u|] v' H; cbn [optQ] in H.
+    - apply IH; auto.
+    - apply safe_emit. exact I.
+  Qed.
+
+  Lemma safe_thread t os v : idle v -> safe t (thread_prog cf t os) v (@Conc.QTrue wview).
+  Proof.
+    intros Hv. unfold thread_prog. apply safe_silent; [intros g; apply quiet_refl|].
+    intros g a tr _ _. eapply Conc.safe_weaken; [|apply safe_run_ops; auto]. intros; exact I.
+  Qed.
+
+
+  (** ** the initial configuration *)
+  Definition ra0 : RAux := fun _ => mkW [] MNone ONone None None (0, L) false 0.
+
+  Lemma nth_error_mapi {A B} (f : nat -> A -> B) : forall l i t, nth_error (mapi f i l) t = option_map (f (i + t)) (nth_error l t).
+  Proof.
+    induction l as [|x r IH]; intros i [|t]; cbn; auto.
+    - now rewrite Nat.add_0_r.
+    - rewrite IH. now rewrite Nat.add_succ_r.
+  Qed.
+
+  Lemma init_ok ths : Conc.cfg_ok rview InvR (init_cfg cf ths).
+  Proof.
+    exists ra0. split.
+    - cbn [init_cfg Conc.shared Conc.trace]. unfold InvR. constructor; cbn [ra0 init w_held w_mic w_own w_anc w_chk w_gs w_acc w_mask rspin rown owner pcap access cur ngen gsize mask fst snd].
+      + intros l H. exfalso. apply H. reflexivity.
+      + intros t l [].
+      + intros t t' l [].
+      + intros l. now left.
+      + intros t l [].
+      + intros t l [E|E]; discriminate.
+      + intros t gg tb i [].
+      + intros t H. exfalso. apply H. reflexivity.
+      + auto.
+      + now left.
+      + discriminate.
+      + discriminate.
+      + discriminate.
+      + discriminate.
+      + split; [reflexivity|]. split; [reflexivity|]. split; [intros g1 g2 H1 H2; lia|intros gg _; exact Hnl].
+      + intros t. split; [lia|reflexivity].
+      + split; [discriminate|]. split; [discriminate|auto].
+      + left. lia.
+      + intros t [].
+    - intros t p Hp. cbn [init_cfg Conc.threads] in Hp. rewrite nth_error_mapi in Hp.
+      destruct (nth_error ths t) as [os|]; inversion Hp; subst. cbn [Nat.add].
+      apply safe_thread. repeat split.
+  Qed.
+
+  (** ** theorems *)
+
+  (** the lock / ownership protocol of cuckoo::refinable<> holds at every reachable configuration *)
+  Theorem cuckoo_refinable_protocol_thm ths (c : Conc.config G V ev) :
+    Conc.reach (init_cfg cf ths) c -> exists a : RAux, CoreR (Conc.shared c) a.
+  Proof. intros Hr. destruct (Conc.reach_Inv (init_ok ths) Hr) as (a & Hi). exists a. exact Hi. Qed.
+
+  Theorem cuckoo_refinable_owner_excludes_thm ths (c : Conc.config G V ev) :
+    Conc.reach (init_cfg cf ths) c ->
+    exists a : RAux,
+      let g := Conc.shared c in
+      (forall l, rspin g l <> 0 <-> exists t, In l (w_held (a t))) /\
+      (forall t t' l, In l (w_held (a t)) -> In l (w_held (a t')) -> t = t') /\
+      (forall t, w_own (a t) <> ONone -> owner g = 2 * S t + 1) /\
+      (owner g = 0 -> forall t, w_own (a t) = ONone) /\
+      pcap g = gsize g (cur g) /\
+      (forall t gen i, w_anc (a t) = Some (gen, i) ->
+          In (gen, 0, i) (w_held (a t)) /\ gen = cur g /\ i < pcap g /\ forall R, R <> t -> ~ exclusive (w_own (a R))) /\
+      (forall t g0 sz j, w_own (a t) = OLk g0 sz j ->
+          g0 = cur g /\ sz = pcap g /\ j <= sz /\ forall i, i < j -> In (g0, 0, i) (w_held (a t))) /\
+      (forall t g0 sz n b, w_own (a t) = OIn g0 sz n b ->
+          g0 < cur g /\ n = pcap g /\ forall i, i < sz -> In (g0, 0, i) (w_held (a t))).
+  Proof.
+    intros Hr. destruct (cuckoo_refinable_protocol_thm ths c Hr) as (a & Hc). exists a. cbv zeta.
+    destruct (r_cap Hc) as (Cp & _).
+    split; [|split; [|split; [|split; [|split; [|split; [|split]]]]]].
+    - intros l. split; [apply (r_spin0 Hc)|]. intros (t & Hin). rewrite (r_spin Hc t l Hin). apply in_cnt in Hin. lia.
+    - apply (r_excl Hc).
+    - apply (r_own1 Hc).
+    - apply (r_own0 Hc).
+    - exact Cp.
+    - intros t gen i E. destruct (r_anc Hc t gen i E) as (A1 & A2 & A3). split; auto. split; auto. split; auto.
+      destruct (r_range Hc _ _ _ _ A1) as (_ & _ & X). rewrite Cp, <- A2. exact X.
+    - intros t g0 sz j E. destruct (r_scan Hc t g0 sz j E) as (A1 & A2 & A3 & A4). split; auto. split; [rewrite Cp, <- A3; exact A2|]. auto.
+    - intros t g0 sz n b E. destruct (r_inst Hc t g0 sz n b E) as (A1 & A2 & A3 & A4). auto.
+  Qed.
+
+  (** ... and a cell validated by acquire() stays a cell of the current lock arrays, taken, while other threads run *)
+  Theorem cuckoo_refinable_valid_stable_thm ths (c : Conc.config G V ev) :
+    Conc.reach (init_cfg cf ths) c ->
+    exists a : RAux, CoreR (Conc.shared c) a /\
+      forall t' c', Conc.step_cfg c t' = Some c' ->
+        forall t gen i, t <> t' -> w_anc (a t) = Some (gen, i) ->
+          cur (Conc.shared c') = cur (Conc.shared c) /\ rspin (Conc.shared c') (gen, 0, i) <> 0 /\
+          forall R, ~ (exclusive (w_own (a R)) /\ R <> t).
+  Proof.
+    intros Hr. pose proof (Conc.reach_inv (init_ok ths) Hr) as Hok.
+    pose proof Hok as (a & Hi & Hts). exists a. split; [exact Hi|].
+    intros t' c' Hs t gen i Hne Ha.
+    unfold Conc.step_cfg in Hs.
+    destruct (nth_error (Conc.threads c) t') as [p|] eqn:Hp; [|discriminate].
+    unfold Conc.step_thread in Hs. destruct p as [r|es k|f k]; try discriminate.
+    pose proof (Hts t' _ Hp) as Hsafe. cbn [Conc.safe] in Hsafe.
+    destruct (Hsafe _ _ _ Hi eq_refl) as (a1 & H1 & H2 & H3).
+    destruct (f (Conc.shared c)) as [[g' v] es] eqn:Hf. cbn [fst snd] in *.
+    destruct (Conc.settle (k v)) as [es' p'] eqn:Hk.
+    inversion Hs; subst c'; clear Hs. cbn [Conc.shared].
+    assert (Hv : a1 t = a t) by (apply H2; exact Hne).
+    destruct (r_anc Hi t gen i Ha) as (A1 & A2 & A3).
+    destruct (r_anc H1 t gen i ltac:(now rewrite Hv)) as (B1 & B2 & B3).
+    split; [congruence|]. split.
+    - rewrite (r_spin H1 t _ B1). apply in_cnt in B1. lia.
+    - intros R [Hx HR]. eapply A3; eauto.
+  Qed.
+
+  (** the critical sections exclude each other: authority over a probe set (validated by acquire() and holding the
+      cell of its stripe in the current arrays, or being the exclusive owner) belongs to at most one thread *)
+  Definition cell_auth (g : G) (w : wview) (tb b : nat) : Prop :=
+    ((exists i, w_anc w = Some (cur g, i)) /\ In (cur g, tb, b mod pcap g) (w_held w)) \/ exclusive (w_own w).
+
+  Theorem cuckoo_refinable_cs_exclusive_thm ths (c : Conc.config G V ev) :
+    Conc.reach (init_cfg cf ths) c ->
+    exists a : RAux, CoreR (Conc.shared c) a /\
+      forall t t' tb b, cell_auth (Conc.shared c) (a t) tb b -> cell_auth (Conc.shared c) (a t') tb b -> t = t'.
+  Proof.
+    intros Hr. destruct (cuckoo_refinable_protocol_thm ths c Hr) as (a & Hc). exists a. split; [exact Hc|].
+    intros t t' tb b [[(i & Ha) Hl]|Hx] [[(i' & Ha') Hl']|Hx'].
+    - eapply (r_excl Hc); eauto.
+    - destruct (Nat.eq_dec t' t) as [|Hne]; auto. exfalso. destruct (r_anc Hc t _ _ Ha) as (_ & _ & X). eapply X; eauto.
+    - destruct (Nat.eq_dec t t') as [|Hne]; auto. exfalso. destruct (r_anc Hc t' _ _ Ha') as (_ & _ & X). eapply X; eauto.
+    - eapply (excl_unique _ a); eauto.
   Qed.
 
 End Refinable.
